@@ -32,6 +32,32 @@ CHECKS = {
             'units / representations and all unit pairs recorded with ==, hash and set size and judged by TLC.',
             'TLC model checking (eq <=> abstract key) + trace validation of eq/hash observations', '7 C19'),
 }
+CHECKS.update({
+    'C02': ('Calc.tla Mul/Div/Pow/number operators: result = type with the combined dimension + exact value in reference '
+            'units, plain number on cancellation, UndefinedResultError iff no declared type; Units.tla decides which results '
+            'exist as declarations come and go (every transition of the TLC state graph executed); all 35x35 unit pairs x '
+            'operand kinds x {*,/}, powers, numbers, random chains validated by TLC.',
+            'TLC model checking of Units.tla + execution of every graph transition + trace validation against Calc.tla', '7 C02'),
+    'C07': ('Terms.tla: terms denote elements of Q x Z^Base; group laws and canonical form model-checked (TermsLaws); '
+            'Term(), normalized(), ==, hash, *, /, **, reciprocal, number ops of the real Term class over real units '
+            'recorded and judged on denotations / canonical shape / global order by TLC (TermsTrace).',
+            'TLC model checking of the denotational term algebra + trace validation of the real Term class', '7 C07'),
+    'C15': ('Units.tla: declaration/directory state machine with menus of valid and invalid declarations; invariants '
+            'SymUnique, DimUnique, OwnType, VecType, RefUnitOfDerived model-checked; EVERY transition of the TLC state '
+            'graph is executed against a pristine library state (fork tree) and the projected directories compared.',
+            'TLC model checking of Units.tla + execution of every state-graph transition in the real library', '7 C15'),
+    'C16': ('Units.tla action property RejectedLeavesNoTrace; menus biased to invalid declarations at every position; '
+            'every transition executed, after a rejected step the projection must equal the unchanged spec state.',
+            'TLC model checking (action property) + execution of every state-graph transition in the real library', '7 C16'),
+    'C17': ('Units.tla memo model: CacheCoherent (memo never disagrees with the history-free Fresh) and '
+            'DefinedIffDeclared model-checked; all interleavings of declarations and unit operations executed, each '
+            'result compared with Fresh(current declarations).',
+            'TLC model checking of the memo invariant + execution of every state-graph transition in the real library', '7 C17'),
+    'C20': ('Catalogue.tla: hand-written SI / yard-pound / IEC table as prime-exponent vectors, its coherence '
+            'model-checked; every predefined unit, SI prefix, documentation row and ordered unit pair of the real '
+            'catalogue observed and judged by TLC (CatalogueTrace). Exhaustive: the space is finite.',
+            'TLC check of the SI table + exhaustive trace validation of the predefined catalogue', '7 C20'),
+})
 NOT_YET = {}
 
 
